@@ -46,8 +46,17 @@ func (t Threshold) IsValid([]byte) error {
 	return nil
 }
 
+// Threshold returns the least number of votes which is at least quorum*t/100.
+// The threshold carries one decimal place (see String()), so the count is
+// calculated in integers; floating point rounding must not change it.
 func (t Threshold) Threshold(quorum uint) uint {
-	return uint(math.Ceil(float64(quorum) * (t / MaxThreshold).Float64()))
+	if t <= 0 {
+		return 0
+	}
+
+	t10 := uint64(math.Round(t.Float64() * 10)) //nolint:mnd //...
+
+	return uint((uint64(quorum)*t10 + 999) / 1000) //nolint:mnd //...
 }
 
 func (t Threshold) VoteResult(quorum uint, set []string) (result VoteResult, key string) {
